@@ -50,9 +50,9 @@ func (r *stubRoute) Connect(ctx context.Context, dest boson.Address) error {
 type stubKad struct{ topology.Driver }
 
 func (k *stubKad) GetPeersWithLatencyEWMA(list []boson.Address) []boson.Address { return list }
-func (k *stubKad) RefreshProtectPeer(peer []boson.Address)                     {}
-func (k *stubKad) RecordPeerLatency(a boson.Address, t time.Duration)          {}
-func (k *stubKad) SubscribePeerState(n subscribe.INotifier)                    {}
+func (k *stubKad) RefreshProtectPeer(peer []boson.Address)                      {}
+func (k *stubKad) RecordPeerLatency(a boson.Address, t time.Duration)           {}
+func (k *stubKad) SubscribePeerState(n subscribe.INotifier)                     {}
 
 type capStream struct {
 	dst  boson.Address
@@ -108,7 +108,7 @@ type published struct {
 type stubSubPub struct{ pubs []published }
 
 func (s *stubSubPub) Subscribe(n subscribe.INotifier, ns, kind, param string) error { return nil }
-func (s *stubSubPub) PublishArray(ns, kind, field string, l []interface{}) error   { return nil }
+func (s *stubSubPub) PublishArray(ns, kind, field string, l []interface{}) error    { return nil }
 func (s *stubSubPub) Publish(ns, kind, param string, message interface{}) error {
 	p := published{kind: kind, param: param}
 	switch m := message.(type) {
@@ -190,8 +190,8 @@ type world struct {
 var logger = logging.New(io.Discard, 0)
 var poolCaches []*gcache.Cache
 
-func unhex(s string) []byte { b, _ := hex.DecodeString(s); return b }
-func ad(s string) boson.Address { return boson.NewAddress(unhex(s)) }
+func unhex(s string) []byte        { b, _ := hex.DecodeString(s); return b }
+func ad(s string) boson.Address    { return boson.NewAddress(unhex(s)) }
 func hexOf(a boson.Address) string { return hex.EncodeToString(a.Bytes()) }
 
 func newWorld(run *hx.Run, selfs []string) *world {
